@@ -275,6 +275,12 @@ K("C19", "K19-ws-utf8-3", "c19_whitespace_tokenizer_utf8_len3", timeout=1800, ti
 K("C19", "K19-ranges", "c19_merge_overlapping_ranges_n2", timeout=600, title="snippet highlight ranges: merged output sorted, disjoint, same union",
   functions=["snippet::merge_overlapping_ranges"], bounds="2 ranges (concrete count) with bounds < 1000, sorted and deduplicated as sort_and_deduplicate_ranges returns them")
 K("C19", "K19-ranges-3", "c19_merge_overlapping_ranges_n3", timeout=300, title="snippet range merging, 3 ranges", functions=["snippet::merge_overlapping_ranges"], bounds="<= 3 ranges")
+K("C19", "K19-ngram-12", "c19_ngram_len3_min1_max2", timeout=900, group="ngram", title="NgramTokenizer (all / prefix-only): offsets inside the text on char boundaries, token = slice, 1..2 characters, lexicographic order, exactly the n-grams (count)",
+  functions=["NgramTokenizer::{new,token_stream}", "NgramTokenStream::advance", "StutteringIterator::{new,next}", "CodepointFrontiers::next", "utf8_codepoint_width"], bounds="all valid UTF-8 texts of 3 bytes, min_gram 1, max_gram 2, prefix_only symbolic", assumes=["token String pre-reserved (8 bytes)"])
+K("C19", "K19-ngram-23", "c19_ngram_len3_min2_max3", timeout=900, group="ngram", title="NgramTokenizer, 2..3 characters",
+  functions=["NgramTokenizer::*", "StutteringIterator::{new,next}", "CodepointFrontiers::next"], bounds="all valid UTF-8 texts of 3 bytes, min_gram 2, max_gram 3, prefix_only symbolic", assumes=["token String pre-reserved"])
+K("C19", "K19-ngram-13-len4", "c19_ngram_len4_min1_max3", timeout=1800, tiers="t", mem=40, title="NgramTokenizer, 1..3 characters, 4-byte texts",
+  functions=["NgramTokenizer::*", "StutteringIterator::{new,next}", "CodepointFrontiers::next"], bounds="all valid UTF-8 texts of 4 bytes, min_gram 1, max_gram 3", assumes=["token String pre-reserved"])
 K("C20", "K20-proxy-len2", "c20_footer_proxy_hashes_accepted_bytes_len2", timeout=900, title="FooterProxy hashes exactly the bytes the underlying writer accepted (short writes)",
   functions=["FooterProxy::{new,write}", "crc32fast::Hasher::{update,finalize} (baseline)"], bounds="2 bytes, <= 2 partial writes; unwind 6",
   stubs=["crc32fast::Hasher::new -> baseline (table) implementation"])
